@@ -9,7 +9,8 @@ git -C /repo worktree remove --force $wt 2>/dev/null
 git -C /repo worktree add -q --detach $wt HEAD || exit 9
 res=$wt.result; : > $res
 demo=$(ls $src/*_test.go 2>/dev/null | head -1)
-testname=$(grep -oE 'func (Test[A-Za-z0-9_]+)' $demo | head -1 | awk '{print $2}')
+testname=$(grep -oE 'func (Test[A-Za-z0-9_]+)' $demo | awk '{print $2}' | paste -sd'|')
+testname="($testname)"
 cd $wt
 cp $demo $wt/zz_seed_demo_test.go
 go test -vet=off -count=1 -run "^${testname}\$" . > $wt.base.log 2>&1; base_rc=$?
@@ -35,6 +36,6 @@ json.dump(m,open(sys.argv[2],"w"),indent=1)
 PY
   echo CONFIRMED
 else
-  echo "NOT CONFIRMED"; tail -5 $wt.base.log $wt.patched.log $wt.suite.log
+  echo "NOT CONFIRMED"; tail -n 5 $wt.base.log $wt.patched.log $wt.suite.log
 fi
 cd /; git -C /repo worktree remove --force $wt; rm -f $wt.*.log $res
